@@ -240,7 +240,7 @@ theorem insertPlain_ne_spec (g : Rng D) {sz cap bits : Nat} {a : Tbl} (pw : Plai
         have := List.length_filter_le (fun x => decide (x ≠ 0)) a.toList
         simpa [nz] using this
       obtain ⟨t1, h1, s1, i1, p1⟩ := placeAll_spec (D := D) (nz a)
-        (Array.replicate (cap + 1 + modW c (g.draw d cap bits).1 % c.bigMod cap) 0) (g.draw d cap bits).2
+        (Array.replicate (cap + 1 + c.growExtra cap + modW c (g.draw d cap bits).1 % c.bigMod cap) 0) (g.draw d cap bits).2
         (inv_replicate_zero _ _) (nz_nodup pw.inv) (fun x hx => (mem_nz.1 hx).1)
         (by rw [nz_replicate_zero]; simp) (by rw [nz_replicate_zero]; simp; omega)
       rw [nz_replicate_zero, List.append_nil] at p1
@@ -249,10 +249,10 @@ theorem insertPlain_ne_spec (g : Rng D) {sz cap bits : Nat} {a : Tbl} (pw : Plai
         (by rw [p1.length_eq, s1]; omega) (enc_ne_zero pw.ph_ne)
         (fun hm => hnot ((p1.mem_iff).1 hm)) (g.draw d cap bits).2
       have h1' : List.foldlM (fun t v => placeRaw (D := D) v t)
-          (Array.replicate (cap + 1 + modW c (g.draw d cap bits).1 % c.bigMod cap) 0)
+          (Array.replicate (cap + 1 + c.growExtra cap + modW c (g.draw d cap bits).1 % c.bigMod cap) 0)
           (a.toList.filter (· ≠ 0)) (g.draw d cap bits).2 = .ok (t1, (g.draw d cap bits).2) := h1
       have p3 : (nz t2).Perm (enc bits e :: nz a) := p2.trans (List.Perm.cons _ p1)
-      refine ⟨sz + 1, cap + 1 + modW c (g.draw d cap bits).1 % c.bigMod cap, t2, true, (g.draw d cap bits).2, ?_,
+      refine ⟨sz + 1, cap + 1 + c.growExtra cap + modW c (g.draw d cap bits).1 % c.bigMod cap, t2, true, (g.draw d cap bits).2, ?_,
         insOK_of_perm hW hmem ?_ (mkWF_plain ⟨by rw [s2, s1]; omega, i2, cut2, ?_, pw.ph_ne⟩ (by rw [s2, s1]) hW hb ?_)⟩
       · unfold insertPlain
         simp only [hne, if_false, hfold, bind, StateT.bind, pure, StateT.pure, Except.bind, Except.pure]
@@ -301,7 +301,7 @@ def plainTail (c : Cfg) (g : Rng D) (sz cap e : Nat) : Tbl × Nat → M D (Rp ×
       | some a' => pure (.heap (sz + 1) cap bits a', true)
       | none => do
         let r ← drawM c g cap bits
-        let newcap := cap + 1 + (r % c.bigMod cap)
+        let newcap := cap + 1 + c.growExtra cap + (r % c.bigMod cap)
         let na : Tbl := Array.replicate newcap 0
         let na ← (a.toList.filter (· ≠ 0)).foldlM (fun t v => placeRaw v t) na
         let na ← placeRaw e' na
